@@ -655,6 +655,6 @@ def instances(tier, seed):
         if inst["fn"] == "main_cli":
             out.append(dict(key="main_config/" + inst["key"], fn="main_config", params=inst["params"]))
     for inst in c16.instances(tier, seed):
-        if inst["fn"] in ("c_mean", "c_argmax", "c_transpose", "s_split", "s_concat", "s_slice_ranges", "s_conv_groups", "s_mean_axis", "c_depth_multiplier", "c_filter"):
+        if inst["fn"] in ("c_mean", "c_argmax", "c_transpose", "s_split", "s_concat", "s_slice_ranges", "s_conv_groups", "s_mean_axis", "c_depth_multiplier", "c_filter", "c_simple", "c_facts", "c_lstm", "c_dtypes"):
             out.append(dict(key="constraints_total/c16/" + inst["key"], fn="t_c16", params=dict(fn=inst["fn"], params=inst["params"])))
     return out
